@@ -49,8 +49,8 @@ JudgeC10 ==
   LET G == Gs[g]
       A == Analysis(G)
       Own == OwnerMap(G, A.parent)
-      must == ConflictsMust(G, A.predict, A.follow, Own)
-      may  == ConflictsMay(G, A.predict, A.follow, Own)
+      must == ConflictsMust(G, A.first, A.predict, A.follow, Own)
+      may  == ConflictsMay(G, A.first, A.predict, A.follow, Own)
       impl == {<<G.lel.conf[i][1], G.lel.conf[i][2]>> : i \in DOMAIN G.lel.conf}
       narrow == NarrowE012(G, A.predict, A.follow, Own)
   IN /\ \A x \in must \ impl :
